@@ -1,5 +1,7 @@
 import Driver.Common
 import TxdbusModel.Wire.Cost
+import TxdbusModel.Wire.Code
+import TxdbusModel.Wire.CostValue
 /-!
 Driver for property C05 (cost model of the decoder).  One operation per line:
 
@@ -11,6 +13,13 @@ Driver for property C05 (cost model of the decoder).  One operation per line:
         message.parseMessage(data, fds); fix=1 the repaired code (signature field must be a str of <= 255 chars), run at
         exactly `parseFuel` (the fuel of parseMessage_total); fix=0 the code before d5434a8 (more fuel: long signatures)
      -> `<status> <steps> <depth> <frames> <size> <body> <work> <chars>`      body: 0 none, 1 decoded, 2 signature field rejected
+  x <le> <off> <fds> <sig strhex> <data hex>
+        BOTH hand models of marshal.unmarshal on the same input, each at the fuel of `cost_agrees_with_code`: the cost model
+        (`Cost.unmarshal`, fuel `fuelFor`) and the value model of C01 / C02 (`Code.unmarshal` of Wire/Code.lean, fuel
+        `codeFuel`; descriptors as plain ints)
+     -> `<cost status> <cost consumed> <cost values> <code status> <code consumed> <code values> <codeFuel> <cost size> <code nodes>`
+        (values = number of top-level values; by the theorem the two triples are equal; code nodes = `1 + nodesList vs`,
+        the objects in the returned list incl. the list itself; by the theorem `code nodes <= cost size + 1`)
   b <sig strhex> <data hex> <off>     -> `<fuelFor> <stepBound> <workBound>`   the proved bounds
   pb <data hex>                        -> `<parseFuel> <parseStepBound> <parseWorkBound>`
 
@@ -31,6 +40,13 @@ def stName : Status → String
   | .ok => "ok"
   | .err e => "err:" ++ errName e
   | .outOfFuel => "fuel"
+
+/-- the exception classes of the value model, spelled like `errName` spells the cost model's. -/
+def pyErrName : PyErr → String
+  | .marshalling => "MarshallingError" | .struct => "struct.error" | .type => "TypeError"
+  | .value => "ValueError" | .index => "IndexError" | .key => "KeyError"
+  | .attribute => "AttributeError" | .unicode => "UnicodeDecodeError" | .runtime => "RuntimeError"
+  | .stopIteration => "StopIteration" | .recursion => "RecursionError" | .other => "Exception"
 
 def flag? (s : String) : Option Bool :=
   if s == "1" then some true else if s == "0" then some false else none
@@ -57,6 +73,18 @@ def step (line : String) : String :=
       let r := parseMessage genTables hf Txdbus.Gen.C05Wire.mtypeKeys Txdbus.Gen.C05Wire.signatureCode fix fds fuel data
       s!"{stName r.st} {r.steps} {r.depth} {r.frames} {r.size} {r.body} {r.work} {r.chars}"
     | _, _, _ => "bad-input"
+  | ["x", le, off, fds, sigh, datah] =>
+    match flag? le, off.toNat?, fds? fds, hexToChars? sigh, hexToBytes? datah with
+    | some le, some off, some fds, some sig, some data =>
+      let r := unmarshal genTables true fds (fuelFor sig data) sig data off le
+      let consumed := match r.st with | .ok => r.off - off | _ => 0
+      let nvals := match r.st with | .ok => r.vals.length | _ => 0
+      let fv : Code.Fds := fds.map (fun l => l.map (fun n => PyVal.int .plain (Int.ofNat n)))
+      let cv := match Code.unmarshal (codeFuel sig data off) sig data off le fv with
+        | .ok (n, vs) => (s!"ok {n} {vs.length}", 1 + nodesList vs)
+        | .error e => (s!"err:{pyErrName e} 0 0", 0)
+      s!"{stName r.st} {consumed} {nvals} {cv.1} {codeFuel sig data off} {r.size} {cv.2}"
+    | _, _, _, _, _ => "bad-input"
   | ["b", sigh, datah, off] =>
     match hexToChars? sigh, hexToBytes? datah, off.toNat? with
     | some sig, some data, some off => s!"{fuelFor sig data} {stepBound sig data off} {workBound sig data off}"
